@@ -297,6 +297,48 @@ def _dyn_worker(args):
                 if st != "ok" or to_shape(val) != exp:
                     viol("dyn.rejected_action_is_not_taken", cfgname, w,
                          {"expected": repr(exp), "observed": exc_str(val) if st != "ok" else repr(to_shape(val))})
+    # ---- GLR, a filter that rejects every reduction of ONE marked production: that production is in no tree --------
+    if ops and prod_marks.get(ops[0]):
+        cfgname = "GLRParser/reject_one_production"
+        if not only or only.get("config") == cfgname:
+            victim = NAMES[ops[0]]
+
+            def reject_one(context, from_state, to_state, action, production, subresults):
+                if action is None:
+                    return None
+                return not (action is REDUCE and len(production.rhs) == 3 and production.rhs[1].name == victim)
+            rec = Recorder(reject_one)
+            pf = GLRParser(g, dynamic_filter=rec)
+            for toks in exprs:
+                w = " ".join(toks)
+                if only and w != only["input"]:
+                    continue
+                res["evaluations"] += 1
+                rec.calls = []
+                st, val = outcome(pf.parse, w)
+                why = protocol_report(rec)
+                if why:
+                    viol("dyn.filter_protocol", cfgname, w, why)
+                if st == "syntax":
+                    if ops[0] not in toks:
+                        viol("dyn.rejected_action_is_not_taken", cfgname, w,
+                             {"observed": "SyntaxError on an expression without the rejected operator"})
+                    continue
+                if st != "ok":
+                    viol("dyn.rejected_action_is_not_taken", cfgname, w, {"observed": exc_str(val)})
+                    continue
+                n = sppf.count_trees(val.result)
+                bad = None
+                for i in range(min(n, 20)):
+                    stack = [val.get_tree(i)]
+                    while stack and bad is None:
+                        nd = stack.pop()
+                        if nd.is_nonterm():
+                            if len(nd.production.rhs) == 3 and nd.production.rhs[1].name == victim:
+                                bad = str(nd.production)
+                            stack.extend(nd.children)
+                if bad:
+                    viol("dyn.rejected_action_is_not_taken", cfgname, w, {"reduction_in_result": bad})
     # ---- GLR, only productions marked: precedence by inspecting sub-results ------------------------------
     if all(prod_marks.get(o) for o in ops) and not any(term_marks.get(o) for o in ops) and table:
         cfgname = "GLRParser/subresult_precedence_filter"
